@@ -52,11 +52,13 @@ func init() {
 			"on a document with patterns, uniqueItems arrays, scalar defaults, allOf/oneOf, multipart and urlencoded bodies with additionalProperties schemas; " +
 			"the same pattern text reached with two regex compilers (per-call option) × document validated with the default / the second compiler / pattern validation off × {fresh, warm}; " +
 			"fresh-process first use of eight self-referential Go types; " +
-			"then a seeded random stream of documents (1-4 operations, several methods under one path item, component schemas shared by $ref, security requirements, string formats, random schemas of depth ≤ 3, per-case unique patterns so that pattern compilation is raced even in a warm process) " +
-			"with per-call options (regex compiler, defaults, multi-error, exclusions, authentication outcome) " +
+			"slices of the shared document: one path item with 0-8 path-level parameters (encoding/json leaves 3 and 5-7 with spare capacity; the observed cap of every PathItem.Parameters is compared with the model's decodedCap) × {2 operations with 1 own required header each, 3 operations with 2/1/2 own parameters}, requests for the different operations validated concurrently, with and without their own required header; " +
+			"`type` lists (2-6 types, not in alphabetical order) with values of none of the types, 3-value enums, 3-name required lists, 3-branch oneOf × {fresh, warm}; " +
+			"then a seeded random stream of documents (1-4 operations, several methods under one path item, path-level parameters (1-7, overriding or not) next to own parameters, component schemas shared by $ref, security requirements, string/integer formats from the process-wide registries incl. two custom ones and a custom body decoder registered at process start, type lists, enums, random schemas of depth ≤ 3, per-case unique patterns so that pattern compilation is raced even in a warm process) " +
+			"with per-call options (regex compiler, defaults, multi-error, exclusions, authentication outcome, generator customizer callback) " +
 			"and 2-6 calls run by 2-12 goroutines, 1-3 calls each, 1-2 rounds on freshly loaded documents. Every case runs in a child of the -race harness; " +
 			"verdicts are compared with the same call run alone on a freshly loaded document — for fresh-process cases alone means in two FURTHER fresh processes that run the calls sequentially in forward and reverse order (process-wide caches survive a reloaded document) —; the document's canonical JSON is compared before/after. " +
-			"A case is non-trivial when at least two goroutines run (the driver reports operation kinds, kind pairs, raced cells).",
+			"A case is non-trivial when at least two goroutines run (the driver reports operation kinds, kind pairs, raced cells, slice shapes, registries).",
 		Exhaustive: true,
 		Gen:        genC15,
 		Run:        runC15,
@@ -1787,7 +1789,11 @@ func genC15(ctx *hx.Ctx, emit func(hx.Case)) {
 	// requests for the different operations validated concurrently, each with exactly its own required header
 	// (accepted alone) or without it (rejected alone, naming ITS header). Whoever treats the path item's list as
 	// scratch space (append, in-place edits) makes one operation's requests be judged by another's parameters.
-	for nItem := 0; nItem <= 8; nItem++ {
+	maxItem := 8
+	if ctx.Thorough() {
+		maxItem = 17 // … 9-15 have spare capacity again, 16 has none
+	}
+	for nItem := 0; nItem <= maxItem; nItem++ {
 		for variant := 0; variant < 2; variant++ {
 			n++
 			emit(c15PathItemCase(nItem, variant, n))
@@ -1806,7 +1812,7 @@ func genC15(ctx *hx.Ctx, emit func(hx.Case)) {
 
 	nCold, nWarm := 110, 260
 	if ctx.Thorough() {
-		nCold, nWarm = 1500, 5000
+		nCold, nWarm = 1400, 4600
 	}
 	for i := 0; i < nCold+nWarm; i++ {
 		cold := i%((nCold+nWarm)/nCold) == 0
